@@ -29,6 +29,7 @@ func runC15(c *Ctx) {
 	read := c.fn("afm", "Read")
 	write := c.method("afm", "Metrics", "Write")
 	c.historyIndependence("AFM-HISTORY", 10, read, write)
+	c.afmReadOnlyRule(write)
 	types3 := map[string]*types.TypeName{"Metrics": c.typeObj("afm", "Metrics"), "GlyphInfo": c.typeObj("afm", "GlyphInfo"), "KernPair": c.typeObj("afm", "KernPair")}
 
 	// ---- field coverage
@@ -392,8 +393,29 @@ func (c *Ctx) afmTableRules(read, write *ssa.Function, events []afmEvent) {
 						layoutSec = append(layoutSec, fmt.Sprintf("%q: %s", v, w))
 					}
 				}
+				if why == "" {
+					// the adjustment goes into the pair as it stands (see the header lines)
+					m.symNums = afmNumberTokens(line)
+					r := m.run(km, line)
+					m.symNums = nil
+					if !r.ok || len(r.kern) != 1 {
+						why = "what the reader does with the line `" + line + "` depends on the value of the adjustment: " + r.why
+					} else if got := r.kern[0]["Adjust"]; len(vals) == 3 && !afmIsNumberOf(got, vals[2].expect) {
+						why = fmt.Sprintf("the line `%s` gives the pair the adjustment %s, expected the number of the line as it stands", line, got)
+					}
+				}
+				// the other sign cells: a positive and a zero adjustment
+				line0 := line
+				for variant := 1; variant <= 2 && why == ""; variant++ {
+					if l, vs, ok := afmSamples(e, variant); ok && l != line0 {
+						vals = vs
+						if w := check(l); w != "" {
+							why = "the line `" + l + "`: " + w
+						}
+					}
+				}
 			}
-			c.check(why == "", "AFM-KEYWORDS", wname, "keyword KPX: the pair written is the pair read back", pos, "line `"+line+"` evaluated in the reader's kerning-pairs section", "kerning pairs do not survive the round trip: "+why)
+			c.check(why == "", "AFM-KEYWORDS", wname, "keyword KPX: the pair written is the pair read back", pos, "line `"+line+"` (and its positive and zero variants) evaluated in the reader's kerning-pairs section", "kerning pairs do not survive the round trip: "+why)
 		case afmGlyphKeys[kw] != nil && strings.Contains(e.format, ";"):
 			glyphEvents = append(glyphEvents, e)
 		default:
@@ -452,6 +474,24 @@ func (c *Ctx) afmTableRules(read, write *ssa.Function, events []afmEvent) {
 					return ""
 				}
 				why = check(line)
+				if why == "" && variant == 0 {
+					// the number the line carries goes into the field as it stands: with the text
+					// → number conversion left symbolic, the field receives that very symbol and
+					// nothing in the iteration branches on it (no clamp, no sign fix-up, no scaling)
+					m.symNums = afmNumberTokens(line)
+					r := m.run(nil, line)
+					m.symNums = nil
+					for i, f := range flds {
+						if f == "" || !(vals[i].expect.k == svInt || vals[i].expect.k == svFloat) {
+							continue
+						}
+						if !r.ok {
+							why = "what the reader does with the line `" + line + "` depends on the value of the number it carries: " + r.why
+						} else if got := r.fields[f]; !afmIsNumberOf(got, vals[i].expect) {
+							why = fmt.Sprintf("the line `%s` leaves %s in field %s, expected the number of the line as it stands", line, got, f)
+						}
+					}
+				}
 				if why == "" {
 					nHdrVariants++
 					free := false
@@ -507,6 +547,42 @@ func (c *Ctx) afmTableRules(read, write *ssa.Function, events []afmEvent) {
 		if why == "" {
 			if w := glyphCheck(line); w != "" {
 				why = "the line `" + line + "`: " + w
+			}
+		}
+		if why == "" {
+			// width and bounding box go into the glyph as they stand (see the header lines); the
+			// character code selects the encoding slot and stays a value
+			m.symNums = afmNumberTokens(line, "C")
+			r := m.run(cm, line)
+			m.symNums = nil
+			want := afmParseGlyphLine(line)
+			g, has := r.glyphs[want.name]
+			switch {
+			case !r.ok || !has:
+				why = "what the reader does with the line `" + line + "` depends on the values of the numbers it carries: " + r.why
+			default:
+				for _, f := range []string{"WidthX", "BBox.LLx", "BBox.LLy", "BBox.URx", "BBox.URy"} {
+					if !afmIsNumberOf(g.fields[f], sv{k: svFloat, f: want.fields[f]}) {
+						why = fmt.Sprintf("the line `%s` leaves %s in glyph field %s, expected the number of the line as it stands", line, g.fields[f], f)
+					}
+				}
+			}
+		}
+		// the other sign cells: positive and zero numbers
+		for variant := 1; variant <= 2 && why == ""; variant++ {
+			l2 := ""
+			for _, e := range glyphEvents {
+				l, _, ok := afmSamples(e, variant)
+				if !ok {
+					l2 = ""
+					break
+				}
+				l2 += l
+			}
+			if l2 != "" && l2 != line {
+				if w := glyphCheck(l2); w != "" {
+					why = "the line `" + l2 + "`: " + w
+				}
 			}
 		}
 		for _, e := range glyphEvents {
@@ -631,6 +707,7 @@ func (c *Ctx) afmCompleteRule(write *ssa.Function, events []afmEvent) {
 		return nil, false
 	}
 	var benign func(blk *ssa.BasicBlock, fields map[string]bool, seen map[any]bool) string
+	isDriver := map[*ssa.Function]bool{}
 	var complete func(s ssa.Value, seen map[any]bool) string
 	complete = func(s ssa.Value, seen map[any]bool) string {
 		s = origin(s)
@@ -745,6 +822,10 @@ func (c *Ctx) afmCompleteRule(write *ssa.Function, events []afmEvent) {
 					continue
 				case (nilable(x) && isNilC(y)) || (nilable(y) && isNilC(x)):
 					continue
+				case rangeFuncStateG(x) || rangeFuncStateG(y):
+					// how the body of a range-over-func loop was left (normally, by break, by
+					// return): the counterpart of the exit edges of a plain loop
+					continue
 				}
 				if s, ok := lenArg(x); ok {
 					if w := complete(s, seen); w != "" {
@@ -811,6 +892,39 @@ func (c *Ctx) afmCompleteRule(write *ssa.Function, events []afmEvent) {
 					return w
 				}
 			}
+			// a loop body that is a function (range-over-func, a closure handed to an `each`
+			// helper) runs where the iterator calls it, and the iterator runs where the body was
+			// handed to it
+			if isDriver[fn] {
+				return "" // an iterator: where it runs was examined together with the body handed to it
+			}
+			sites, ok := c.bodySitesG(fn)
+			if !ok {
+				return "the enclosing function literal is handed to code the rule cannot follow: it cannot be shown to run for every element"
+			}
+			for _, bs := range sites {
+				if bs.site != nil {
+					isDriver[bs.driver] = true
+					if w := benign(bs.site.Block(), fields, seen); w != "" {
+						return w
+					}
+				} else {
+					// an iterator of the standard library over a list: the whole list is visited
+					switch bs.lib {
+					case "slices.Values", "slices.All", "slices.Backward", "maps.Keys", "maps.Values", "maps.All":
+						for _, a := range bs.libArg {
+							if w := complete(a, seen); w != "" {
+								return w
+							}
+						}
+					default:
+						return "the loop ranges over the iterator " + bs.lib + ", which the rule cannot follow"
+					}
+				}
+				if w := benign(bs.invoke.Block(), fields, seen); w != "" {
+					return w
+				}
+			}
 		}
 		return ""
 	}
@@ -835,4 +949,24 @@ func (c *Ctx) afmCompleteRule(write *ssa.Function, events []afmEvent) {
 		c.check(why == "", "AFM-COMPLETE", wname, what+" is written whatever the data is", e.pos(), "guarded only by earlier write errors, by the absence of what it carries, and by loops over whole lists", "the line `"+e.format+"` is only written if "+why+": data the reader cannot restore is left out of the file")
 	}
 	c.floor("AFM-COMPLETE", 14)
+}
+
+// afmReadOnlyRule: AFM-READONLY.  The round trip compares what is read back with the metrics as
+// they were handed to the writer, so the writer — with every query method and helper it calls —
+// must leave them as they are: no store, map update or append through memory reachable from the
+// receiver (write effects, effects.go).  A writer that completes or normalises the value it is
+// given writes a file for a different value than the caller's, and hides the difference from a
+// comparison with the same object.
+func (c *Ctx) afmReadOnlyRule(write *ssa.Function) {
+	eff := c.effects().of(write)
+	var bad []string
+	if eff.Params[0] {
+		bad = append(bad, "writes memory reachable from the metrics it is called on")
+	}
+	if len(eff.Heap) > 0 {
+		bad = append(bad, dedup(eff.Heap)...)
+	}
+	c.check(len(bad) == 0, "AFM-READONLY", c.fname(write), "the writer leaves the metrics it writes unchanged", write.Pos(), "no store reachable from the receiver in the writer and the functions it calls",
+		"the AFM writer "+strings.Join(bad, "; ")+": the file describes other metrics than the caller's, and the metrics read back are compared with a value the writer has changed")
+	c.floor("AFM-READONLY", 1)
 }
